@@ -40,8 +40,9 @@ type Recipe struct {
 	HF          map[int]uint64 `json:"hf"` // hard fork -> height (absent = never)
 	GenesisDiff uint64         `json:"genesis_diff"`
 	Accounts    int            `json:"accounts"`
-	HF4Funded   int            `json:"hf4_funded"` // how many HF4-listed addresses get a genesis balance
-	Blocks      []BlockRecipe  `json:"blocks"`     // creation order; block id = index+1 (0 = genesis)
+	HF4Funded   int            `json:"hf4_funded"`        // how many HF4-listed addresses get a genesis balance
+	Balance     string         `json:"balance,omitempty"` // genesis balance of every account (default 1e27 wei)
+	Blocks      []BlockRecipe  `json:"blocks"`            // creation order; block id = index+1 (0 = genesis)
 }
 
 type BlockRecipe struct {
@@ -174,6 +175,11 @@ func Build(r *Recipe) (u *Universe, err error) {
 	u = &Universe{Recipe: r, Cfg: r.ChainConfig(), ByHash: map[common.Hash]int{}, Contracts: map[string]common.Address{}}
 	alloc := core.GenesisAlloc{}
 	rich, _ := new(big.Int).SetString("1000000000000000000000000000", 10) // 1e27 wei
+	if r.Balance != "" {
+		if b, ok := new(big.Int).SetString(r.Balance, 10); ok {
+			rich = b
+		}
+	}
 	for i := 0; i < r.Accounts; i++ {
 		k := keyFor(i)
 		u.Keys = append(u.Keys, k)
